@@ -98,11 +98,13 @@ theorem inv_exec (a : Api) (c : Call) (hi : Inv a.s) : Inv (a.exec c).1.s := by
   | lock v h k limit h0 => exact inv_lock a v h k limit h0 hi
   | poll h =>
     simp only [Api.exec]
+    split; · exact hi
     split
     · exact inv_resume a h _ hi
     · exact inv_acquire a.s h hi
   | cancel h =>
     simp only [Api.exec]
+    split; · exact hi
     split
     · exact inv_abandon a h _ hi
     · exact inv_cancelHandle a h hi
